@@ -413,6 +413,7 @@ pub fn run(a: &Args) {
     st.rule = "real WebsocketStream on a loopback tokio-tungstenite server: (a) AsyncRead driven with scripted slice sizes 1..7000 over scripts of binary (1..66000 bytes), empty binary, text, ping and pong messages, chunks compared with the payloads and the model; (b) Framed sessions of 1..700 frames (all kinds) under six partition styles (one frame per message, several per message, random mid-frame cuts, messages of 1021..20000 bytes, 1..3-byte messages, one message) with 0/10/40 % interleaved non-binary messages, ended by a close handshake; (c) every kind written, the server must receive one binary message per packet equal to its frame; non-trivial = frames split across or sharing messages".into();
     st.sample("session C 424242 60 2 10  (60 frames cut at random byte positions into binary messages, 10% noise)".into());
     { let c2 = crate::conv::async_conversations("C20", a, &mut rng, &mut st, &mut out); st.distinct_nontrivial += c2.distinct.len() as u64; }
+    crate::net::report_unconsumed("C20", &mut st);
     out.finish(&st);
 }
 
